@@ -1,5 +1,5 @@
 """C18 - Version is a total order consistent with == and hash (E1, CrossHair)."""
-from .. import common, xhair
+from .. import common, xhair, symrun
 
 PRELUDE = r'''
 from hszinc.version import Version, OFFICIAL_VERSIONS
@@ -50,13 +50,48 @@ def ref_cmp(n1, x1, n2, x2):
 
 OFFICIAL = sorted(OFFICIAL_VERSIONS)
 MAXX = @MAXX@
+CAT_MINL = @CATMINL@
+
+# module-level containers of hszinc.version as they are after import: every nearest() harness starts from this state, so
+# that a path cannot see what an earlier explored path left behind (and a replay in a fresh process sees the same thing)
+import copy as _copy
+_MODSTATE = [(o, _copy.copy(o)) for k, o in vars(_vm).items() if isinstance(o, (dict, list, set)) and not k.startswith('__')]
+
+def reset_modstate():
+    for o, c in _MODSTATE:
+        o.clear()
+        if isinstance(o, list):
+            o.extend(c)
+        else:
+            o.update(c)
+
+# suffixes that end in digits, share a stem, differ in case / blanks / punctuation: ordered as plain text by the docstring
+SUFFIXES = [None, 'a', 'b', 'A', 'ab', 'rc1', 'rc01', 'rc9', 'rc10', 'rc1x', 'a1', 'a01', 'a9', 'a10', '-1', '-01', '-9', '-10',
+            ' 1', '+', chr(233), 'a.9', 'a.10', 'a ', '_', 'a0', 'a00', 'rc', 'RC1', 'b2']
+
+def small(x, n):
+    for k in range(n):
+        if x == k:
+            return k
+    return 0
+
+def pick_suffix(i, lo=0, hi=None):
+    for k in range(lo, len(SUFFIXES) if hi is None else hi):
+        if i == k:
+            return SUFFIXES[k]
+    return None
 '''
 
 H = []
 
 
-def h(name, src, **kw):
+SYMX_HARNESSES = set()
+
+
+def h(name, src, symx=False, **kw):
     H.append(xhair.Harness(name, src, **kw))
+    if symx:
+        SYMX_HARNESSES.add(name)
 
 
 h('trichotomy_order', r'''
@@ -208,6 +243,7 @@ def nearest_official(l: int, a: int, b: int, c: int, x: Optional[str]) -> bool:
     pre: okn(l, a, b, c) and okx(x)
     post: _
     """
+    reset_modstate()
     v = mkv(tup(l, a, b, c), x)
     r = Version.nearest(v)
     if not any(r is o or (r == o and hash(r) == hash(o)) for o in OFFICIAL):
@@ -224,6 +260,7 @@ def nearest_monotone(l1: int, a1: int, b1: int, c1: int, x1: Optional[str], l2: 
     pre: okn(l1, a1, b1, c1, 2) and okn(l2, a2, b2, c2, 2) and okx(x1) and okx(x2)
     post: _
     """
+    reset_modstate()
     a, b = mkv(tup(l1, a1, b1, c1), x1), mkv(tup(l2, a2, b2, c2), x2)
     if a <= b:
         return Version.nearest(a) <= Version.nearest(b)
@@ -236,6 +273,7 @@ def nearest_text(a: int, b: int, form: int) -> bool:
     pre: 0 <= a <= 12 and 0 <= b <= 12 and 0 <= form <= 2
     post: _
     """
+    reset_modstate()
     s = ['%d' % a, '%d.%d' % (a, b), '%d.%d.0' % (a, b)][form]
     r = Version.nearest(s)
     v = Version(s)
@@ -244,11 +282,82 @@ def nearest_text(a: int, b: int, form: int) -> bool:
     return any(r == o and hash(r) == hash(o) for o in OFFICIAL) and (r in OFFICIAL_VERSIONS) and ((v == r) == ((a, b) in ((2, 0), (3, 0))))
 ''', timeout=60, what='nearest() on spelled versions incl. 2, 2.0.0, 3.0.0')
 
+h('nearest_history', r'''
+def nearest_history(l1: int, a1: int, b1: int, c1: int, x1: Optional[str], l2: int, a2: int, b2: int, c2: int, x2: Optional[str]) -> bool:
+    """
+    pre: okn(l1, a1, b1, c1, 2) and okn(l2, a2, b2, c2, 2) and okx(x1) and okx(x2)
+    post: _
+    """
+    reset_modstate()
+    first, v = mkv(tup(l1, a1, b1, c1), x1), mkv(tup(l2, a2, b2, c2), x2)
+    Version.nearest(first)                     # an earlier lookup in the same process
+    r = Version.nearest(v)
+    if not any(r is o or (r == o and hash(r) == hash(o)) for o in OFFICIAL):
+        return False
+    eqs = [o for o in OFFICIAL if o == v]
+    if eqs and not (r == v):
+        return False
+    return True
+''', timeout=90, what='nearest() after an earlier nearest() of another version: still official, equal when one exists')
+
+h('nearest_history_text', r'''
+def nearest_history_text(a1: int, b1: int, s1: int, a2: int, b2: int, s2: int) -> bool:
+    """
+    pre: 1 <= a1 <= 4 and 0 <= b1 <= 1 and 0 <= s1 < 6 and 1 <= a2 <= 4 and 0 <= b2 <= 1 and 0 <= s2 < 6
+    post: _
+    """
+    reset_modstate()
+    sfx = ['', 'a', 'rc1', '.0', '.0a', '.1']
+    t1 = t2 = None
+    for A in range(1, 5):
+        for B in range(0, 2):
+            for S in range(6):
+                if a1 == A and b1 == B and s1 == S:
+                    t1 = '%d.%d%s' % (A, B, sfx[S])
+                if a2 == A and b2 == B and s2 == S:
+                    t2 = '%d.%d%s' % (A, B, sfx[S])
+    Version.nearest(t1)
+    r = Version.nearest(t2)
+    v = Version(t2)
+    if not any(r == o and hash(r) == hash(o) for o in OFFICIAL):
+        return False
+    eqs = [o for o in OFFICIAL if o == v]
+    if eqs and not (r == v):
+        return False
+    return True
+''', timeout=90, what='nearest() on spelled versions after an earlier lookup (suffixed before plain, plain before suffixed)', symx=True)
+
+for _lo in range(0, 30, 5):
+    h('suffix_catalogue_%d' % _lo, r'''
+def suffix_catalogue_@LO@(l: int, a: int, b: int, c: int, pad: int, i1: int, g2: int, r2: int) -> bool:
+    """
+    pre: okn(l, a, b, c) and CAT_MINL <= l and max(a, b, c) <= 1 and 0 <= pad <= 1 and @LO@ <= i1 < @LO@ + 5 and 0 <= g2 < 6 and 0 <= r2 < 5
+    post: _
+    """
+    n1 = tup(l, a, b, c)
+    n2 = n1 + ((0,) if pad == 1 else ())
+    x1, x2 = pick_suffix(i1, @LO@, @LO@ + 5), SUFFIXES[5 * small(g2, 6) + small(r2, 5)]
+    a, b = mkv(n1, x1), mkv(n2, x2)
+    s = sign(a, b)
+    if s is None or s != ref_cmp(n1, x1, n2, x2):
+        return False
+    lt = a < b
+    eq = a == b
+    if not ((a <= b) == (lt or eq) and (a >= b) == (not lt) and (a != b) == (not eq) and (a > b) == (not lt and not eq)):
+        return False
+    if not ((b > a) == lt and (b == a) == eq and (b < a) == (s > 0)):
+        return False
+    if eq and hash(a) != hash(b):
+        return False
+    return True
+'''.replace('@LO@', str(_lo)), timeout=150, what='versions with equal numeric groups (one optionally zero-padded) and suffixes ending in digits / sharing a stem / differing in case: documented text order, operators agree both ways, equal => equal hash (agreement with a total reference order gives transitivity)', symx=True)
+
 
 def run(chk):
     chk.bounds = dict(numeric_groups='1..3 (transitivity/monotone/string operand: 1..2)',
                       component_range='unbounded non-negative ints (z3 Int) where not printed; <1000 / <100 where printed',
-                      suffix='None or 1 (quick) / 1..2 (thorough) arbitrary code points, first one neither digit nor dot, no newline',
+                      suffix='None or 1 (quick) / 1..2 (thorough) arbitrary code points, first one neither digit nor dot, no newline; plus every ordered pair from a catalogue of 30 suffixes of up to 4 characters (trailing digits, shared stems, case, blanks, punctuation) on versions with equal numeric groups (1..3 groups, components in {0,1}), one optionally zero-padded',
+                      histories='nearest() after one earlier nearest() call in the same process (module state reset to its import-time value before each path)',
                       ctor_text_len='<=4 arbitrary code points')
     chk.assumptions = [
         'Version objects are built field-wise (version_nums tuple, version_extra) exactly as Version.__init__ leaves them; the constructor itself is covered by ctor_text/ctor_digits/str_roundtrip',
@@ -264,7 +373,11 @@ def run(chk):
     scale = 1 if chk.tier == 'quick' else 5
     for x in hs:
         x.timeout = x.timeout * scale
-    xhair.run_harnesses(chk, PRELUDE.replace('@MAXX@', '1' if chk.tier == 'quick' else '2'), hs)
+    prelude = PRELUDE.replace('@MAXX@', '1' if chk.tier == 'quick' else '2').replace('@CATMINL@', '1')
+    xhair.run_harnesses(chk, prelude, [x for x in hs if x.name not in SYMX_HARNESSES])
+    sx = [x for x in hs if x.name in SYMX_HARNESSES]
+    if sx:
+        symrun.run_harnesses(chk, prelude, sx)
     return chk.finish(rule='one CrossHair condition per harness function; each is explored path by path with z3 deciding '
                            'feasibility of every branch over symbolic ints/strings; distinct_nontrivial = harnesses whose '
                            'reachability twin was refuted (non-vacuous) and that were explored without counterexample',
